@@ -133,8 +133,9 @@ impl BufferParser for Parser {
                     Ok(CallbackAction::NoUpdate)
                 }
                 2 => {
-                    caret.pos.x = self.avt_repeat_char as i32;
-                    caret.pos.y = ch as i32;
+                    // ^V^H <row> <column>, both counted from 1 (FSC-0025); the writer's "home" is (1, 1)
+                    caret.pos.y = buf.get_first_visible_line() + (self.avt_repeat_char as i32 - 1).max(0);
+                    caret.pos.x = (ch as i32 - 1).max(0);
                     buf.terminal_state.limit_caret_pos(buf, caret);
 
                     self.avt_state = AvtReadState::Chars;
